@@ -181,7 +181,7 @@ func verifyFunction(P *Program, S *Specs, key string) (res *FuncResult) {
 				}
 				sort.Strings(gnames)
 				for _, gname := range gnames {
-					if mods[gname] || mods["*"] {
+					if mods[gname] || mods["*"] || S.GhostUntracked[gname] {
 						continue
 					}
 					h := c.ghostVar(gname, x.resolveSort(S.GhostVars[gname]))
